@@ -29,6 +29,7 @@ type refRetry struct {
 	validRsp  int // replies that decoded to a message (per C18: responses counter)
 	ctxDone   bool
 	rspByCode [5]int
+	bodyShort bool // the final reply's body does not decode as the command's response
 }
 
 // vRetryDriver wires a fake BMC that produces an arbitrary outcome per attempt (at
@@ -77,7 +78,12 @@ func (d *vRetryDriver) reply(attempt int, req []byte) ([]byte, error) {
 // vCheckOutcome compares the library's result with the reference model's.
 func (d *vRetryDriver) vCheckOutcome(code ipmi.CompletionCode, err error, sent int) {
 	vAssert(sent == d.ref.datagrams, "c10-transmissions-counted")
-	if d.ref.finished && !d.ref.failed {
+	if d.ref.finished && !d.ref.failed && d.ref.bodyShort {
+		// a valid final message whose body does not decode: the code is returned with an error
+		vAssert(err != nil, "?c10-undecodable-response-body-is-an-error")
+		vAssert(byte(code) == d.ref.code, "?c10-code-returned-with-the-body-error")
+		vReached("?body-error")
+	} else if d.ref.finished && !d.ref.failed {
 		vAssert(err == nil, "c10-final-reply-completes-the-command")
 		vAssert(byte(code) == d.ref.code, "c10-returns-the-first-final-completion-code")
 		vReached("?completed")
@@ -114,10 +120,33 @@ func VerifRetry_Sessionless() {
 	netFn := vByte() & 0x3e
 	vAssume(netFn != 0x2c)
 	vAssume(netFn != 0x2e)
-	cmd := &vSynthCmd{op: ipmi.Operation{Function: ipmi.NetworkFunction(netFn), Command: ipmi.CommandNumber(vByte())}, lun: ipmi.LUN(vByte() & 3), body: vBytes(vParam("body", 2))}
+	var cmd ipmi.Command
+	var cmdNo, lun byte
+	var reqBody []byte
+	name := "synthetic"
 	d := &vRetryDriver{k: vParam("attempts", 3), cancel: cancel}
+	if vParam("withrsp", 0) == 1 {
+		// a command with a response body (Get System GUID, 16 bytes): the final reply's body
+		// is either complete or too short to decode
+		cmd, netFn, cmdNo, lun, name = &ipmi.GetSystemGUIDCmd{}, 0x06, 0x37, 0, "Get System GUID"
+	} else {
+		sc := &vSynthCmd{op: ipmi.Operation{Function: ipmi.NetworkFunction(netFn), Command: ipmi.CommandNumber(vByte())}, lun: ipmi.LUN(vByte() & 3), body: vBytes(vParam("body", 2))}
+		cmd, cmdNo, lun, reqBody = sc, byte(sc.op.Command), byte(sc.lun), sc.body
+	}
 	d.buildReply = func(cc byte) []byte {
-		m := refBuildMsg(0x81, netFn|1, 0, 0x20, 1, byte(cmd.lun), byte(cmd.op.Command), []byte{cc})
+		data := []byte{cc}
+		if vParam("withrsp", 0) == 1 {
+			short := vBool()
+			if cc != 0xC0 && cc != 0xC3 {
+				d.ref.bodyShort = short
+			}
+			if short {
+				data = append(data, vBytes(3)...)
+			} else {
+				data = append(data, vBytes(16)...)
+			}
+		}
+		m := refBuildMsg(0x81, netFn|1, 0, 0x20, 1, lun, cmdNo, data)
 		return refSessionless(0x00, m)
 	}
 	d.corrupt = func(v []byte) []byte {
@@ -131,13 +160,13 @@ func VerifRetry_Sessionless() {
 	d.vCheckOutcome(code, err, len(ft.sent))
 	// C09: outside a session every datagram carries session ID 0 and sequence number 0;
 	// C10: every (re)transmission is the complete encoding of the caller's command.
-	want := refSessionless(0x00, refBuildMsg(0x20, netFn, byte(cmd.lun), 0x81, 1, 0, byte(cmd.op.Command), cmd.body))
+	want := refSessionless(0x00, refBuildMsg(0x20, netFn, lun, 0x81, 1, 0, cmdNo, reqBody))
 	for _, dg := range ft.sent {
 		vAssert(len(dg) >= 16, "c09-sessionless-has-wrapper")
 		vAssert(refLE32(dg[6:10]) == 0 && refLE32(dg[10:14]) == 0, "c09-sessionless-id-and-sequence-zero")
 		vAssert(refBytesEq(dg, want), "c10-every-transmission-is-the-reference-encoding-of-the-command")
 	}
-	d.vCheckMetrics("synthetic", err, len(ft.sent))
+	d.vCheckMetrics(name, err, len(ft.sent))
 	vReached("end")
 }
 
@@ -155,13 +184,34 @@ func VerifRetry_Session() {
 	netFn := vByte() & 0x3e
 	vAssume(netFn != 0x2c)
 	vAssume(netFn != 0x2e)
-	cmd := &vSynthCmd{op: ipmi.Operation{Function: ipmi.NetworkFunction(netFn), Command: ipmi.CommandNumber(vByte())}, lun: ipmi.LUN(vByte() & 3), body: vBytes(vParam("body", 2))}
+	var cmd ipmi.Command
+	var cmdNo, lun byte
+	var reqBody []byte
+	name := "synthetic"
 	d := &vRetryDriver{k: k, cancel: cancel}
+	if vParam("withrsp", 0) == 1 {
+		cmd, netFn, cmdNo, lun, name = &ipmi.GetSystemGUIDCmd{}, 0x06, 0x37, 0, "Get System GUID"
+	} else {
+		sc := &vSynthCmd{op: ipmi.Operation{Function: ipmi.NetworkFunction(netFn), Command: ipmi.CommandNumber(vByte())}, lun: ipmi.LUN(vByte() & 3), body: vBytes(vParam("body", 2))}
+		cmd, cmdNo, lun, reqBody = sc, byte(sc.op.Command), byte(sc.lun), sc.body
+	}
 	d.ref.inSession = true
 	_, macLen := refIntegrityHash(integ)
 	bmcSeq := vU32()
 	d.buildReply = func(cc byte) []byte {
-		m := refBuildMsg(0x81, netFn|1, 0, 0x20, 1, byte(cmd.lun), byte(cmd.op.Command), []byte{cc})
+		data := []byte{cc}
+		if vParam("withrsp", 0) == 1 {
+			short := vBool()
+			if cc != 0xC0 && cc != 0xC3 {
+				d.ref.bodyShort = short
+			}
+			if short {
+				data = append(data, vBytes(3)...)
+			} else {
+				data = append(data, vBytes(16)...)
+			}
+		}
+		m := refBuildMsg(0x81, netFn|1, 0, 0x20, 1, lun, cmdNo, data)
 		return refSessionPacket(vs.sess.LocalID, bmcSeq, integ, vs.k1, vs.k2, vBytes(16), m)
 	}
 	d.corrupt = func(v []byte) []byte {
@@ -178,9 +228,9 @@ func VerifRetry_Session() {
 		// C09: strictly increasing, +1 per transmitted datagram, from the pre-state
 		msg := vCheckSessionDatagram(vs, dg, s0+uint32(i)+1, vRandBytes(r0+i+1))
 		// C10: each retransmission is a complete encoding of the same command
-		vCheckRequestMsg(msg, netFn, byte(cmd.op.Command), byte(cmd.lun), cmd.body)
+		vCheckRequestMsg(msg, netFn, cmdNo, lun, reqBody)
 	}
 	vAssert(vs.sess.AuthenticatedSequenceNumbers.Inbound == s0+uint32(len(vs.ft.sent)), "c09-counter-advanced-by-transmissions")
-	d.vCheckMetrics("synthetic", err, len(vs.ft.sent))
+	d.vCheckMetrics(name, err, len(vs.ft.sent))
 	vReached("end")
 }
